@@ -825,6 +825,29 @@ def generator_with_prologue(variables):
         raise ValueError('none')
 
 
+def _flip(table, entry, key):
+    name = entry['name']
+    if name == key:
+        table = dict(table, flipped=name)
+    else:
+        table = dict(table, other=name)
+    entry = table.get('flipped')
+    try:
+        extra = table['bounds']
+    except KeyError:
+        return table
+    return dict(table, extra=(extra, entry))
+
+
+def rebinding_helper(table, entry, key):
+    current = dict(table)
+    item = dict(entry)
+    if key is not None:
+        current = _flip(current, item, key)
+        item = current.get('other')
+    return current, item
+
+
 def _lookup(table, key):
     try:
         return table[key]
@@ -1215,6 +1238,7 @@ CASES = {
     'inline_multi': [([1, -2, None, 0],), ([],)],
     'inline_with_return': [([1, 2, 3], []), ([], [])],
     'generator_with_prologue': [({'_a': {'units': 'm'}, 'b': {'units': 'km'}},), ({'a': {}},), ({},)],
+    'rebinding_helper': [({'bounds': 1}, {'name': 'z'}, 'z'), ({}, {'name': 'z'}, 'q'), ({'bounds': 2}, {'name': 'z'}, None)],
     'inline_tail': [({'a': 1, 2: 'two'}, 'a'), ({'a': 1, 2: 'two'}, '2'), ({}, 'z')],
     'inline_statement': [(2,), (0,)],
     'inline_names_do_not_clash': [([1, 2],), ([],)],
